@@ -148,6 +148,9 @@ def err(a, b, trim=0):
         sl = (slice(None),) * lead + (slice(trim, -trim),) * 3
         a, b = a[sl], b[sl]
     d = np.abs(a - b)
+    if d.size == 0:
+        raise HarnessError("empty comparison region (grid too small for "
+                           "the requested trim)")
     if not np.all(np.isfinite(d)):
         return float("inf")
     return float(np.max(d)) if d.size else 0.0
